@@ -78,7 +78,7 @@ void warmUp()
       ct.widen( lo, lo + 256, dst);
       for (int c = 0; c < 256; ++c) { (void) ct.narrow( static_cast< char>( c), '\0'); (void) ct.widen( static_cast< char>( c)); }
    }
-   static const char* const  sets[] = { "R1", "R2", "R3", "R4", "R5", "R6", "R7", "R8", "R11", "R12" };
+   static const char* const  sets[] = { "R1", "R2", "R3", "R4", "R5", "R6", "R7", "R8", "R11", "R13" };
    static const char* const  checks[] = { "", "lower", "upper", "range", "values", "pattern", "minlen" };
    static const char* const  cards[] = { "", "max", "exact", "range" };
    static const char* const  cons[] = { "", "requires", "excludes", "all_of", "any_of", "one_of" };
@@ -89,6 +89,7 @@ void warmUp()
       Json  chosen = Json::array();
       chosen.push( sets[ round % 10]);
       chosen.push( sets[ (round * 7 + 3) % 10]);
+      if ((round % 3) == 1) chosen.push( "R12");
       recipe[ "sets"] = chosen;
       recipe[ "sep"] = (round % 3) ? ";" : ",";
       recipe[ "multi"] = (round % 4) == 1;
